@@ -96,15 +96,15 @@ package types
 //@   assigns nothing
 //@   ensures [C11] method: err == nil ==> IsGCM(ea.EncryptionMethod.Algorithm) || IsCBC(ea.EncryptionMethod.Algorithm)
 //@   ensures [C11] data: err == nil ==> b64ok(ea.CipherValue)
-//@   ensures [C11] gcm.inline: IsGCM(ea.EncryptionMethod.Algorithm) && ea.EncryptedKey.CipherValue != "" ==>
+//@   ensures [C11, C07] gcm.inline: IsGCM(ea.EncryptionMethod.Algorithm) && ea.EncryptedKey.CipherValue != "" ==>
 //@        (err == nil <==> b64ok(ea.CipherValue) && UnwrapOK(&ea.EncryptedKey, cert) && GCMOK(ea, UnwrappedKey(&ea.EncryptedKey, cert)))
 //@        && (err == nil ==> out == GCMPlain(ea, UnwrappedKey(&ea.EncryptedKey, cert)))
-//@   ensures [C11] gcm.detached: IsGCM(ea.EncryptionMethod.Algorithm) && ea.EncryptedKey.CipherValue == "" ==>
+//@   ensures [C11, C07] gcm.detached: IsGCM(ea.EncryptionMethod.Algorithm) && ea.EncryptedKey.CipherValue == "" ==>
 //@        (err == nil <==> b64ok(ea.CipherValue) && UnwrapOK(&ea.DetEncryptedKey, cert) && GCMOK(ea, UnwrappedKey(&ea.DetEncryptedKey, cert)))
 //@        && (err == nil ==> out == GCMPlain(ea, UnwrappedKey(&ea.DetEncryptedKey, cert)))
-//@   ensures [C11] cbc.inline: IsCBC(ea.EncryptionMethod.Algorithm) && ea.EncryptedKey.CipherValue != "" ==>
+//@   ensures [C11, C07] cbc.inline: IsCBC(ea.EncryptionMethod.Algorithm) && ea.EncryptedKey.CipherValue != "" ==>
 //@        (err == nil <==> b64ok(ea.CipherValue) && UnwrapOK(&ea.EncryptedKey, cert) && CBCOK(ea, UnwrappedKey(&ea.EncryptedKey, cert)))
-//@   ensures [C11] cbc.detached: IsCBC(ea.EncryptionMethod.Algorithm) && ea.EncryptedKey.CipherValue == "" ==>
+//@   ensures [C11, C07] cbc.detached: IsCBC(ea.EncryptionMethod.Algorithm) && ea.EncryptedKey.CipherValue == "" ==>
 //@        (err == nil <==> b64ok(ea.CipherValue) && UnwrapOK(&ea.DetEncryptedKey, cert) && CBCOK(ea, UnwrappedKey(&ea.DetEncryptedKey, cert)))
 //@   ensures [C11] unknown: !IsGCM(ea.EncryptionMethod.Algorithm) && !IsCBC(ea.EncryptionMethod.Algorithm) ==> err != nil
 // CBC unpadding (xmlenc): the last byte is the pad length N, 1 <= N <= block size; exactly N bytes are removed and
@@ -112,3 +112,12 @@ package types
 //@   exit [C11] cbc.accept: IsCBC(ea.EncryptionMethod.Algorithm) && int(padLength) <= len(data) ==> err == nil
 //@   exit [C11] cbc.strip: IsCBC(ea.EncryptionMethod.Algorithm) && err == nil ==> lastGoodIndex == len(data) - int(padLength) && len(out) == lastGoodIndex
 //@   exit [C11] gcm.split: IsGCM(ea.EncryptionMethod.Algorithm) && err == nil ==> len(nonce) == 12 && out == plainText
+
+// Decrypt (exported): DecryptBytes, then the tag-driven decode of the plaintext into a fresh Assertion.
+//@ func (ea *EncryptedAssertion) Decrypt(cert *tls.Certificate) (a *Assertion, err error)
+//@   requires ea != nil && cert != nil && KeyOK(cert.PrivateKey)
+//@   safety [C09]
+//@   fresh [C09] a when err == nil
+//@   ensures [C09] xor: (a != nil) != (err != nil)
+//@   exit [C09, C11] failed: lasterr(EncryptedAssertion.DecryptBytes) != nil ==> err != nil
+//@   exit [C11] plaintext: called(Unmarshal) ==> lastarg(Unmarshal, 0) == lastres(EncryptedAssertion.DecryptBytes, 0)
